@@ -13,7 +13,7 @@ CONSTANTS
   CheckQuorumOn = TRUE
   MaxTerm = 3
   MaxLog = 2
-  MaxNet = 4
+  MaxNet = 6
   MaxCrashes = 0
   MaxProposals = 1
   MaxDepth = 60
@@ -24,9 +24,9 @@ CONSTANTS
   PrintReplay = TRUE
   Fine = FALSE
   EagerReady = TRUE
-  QuiescentTicks = TRUE
+  QuiescentTicks = FALSE
   MaxLeaderTicks = 1
-  TickNodes = {1, 2, 3}
+  TickNodes = {1, 2}
   MaxDrops = 2
   MaxTransfers = 0
   TransferTargets = {}
